@@ -141,4 +141,49 @@ theorem Inv.setItem_at_len {s : St} {h : Term} {ps : List Cell} (inv : Inv s h p
     · simp only [cellAtLen, if_neg hps] at ch'
       exact ch'.nil_free (Or.inl rfl) (o := v) (by rw [mem_gset]; exact Or.inl rfl)
 
+/-! ### another Collection object over the same chain (`g.collection(c.uri)`, or opened on a tail cell) -/
+
+/-- `Graph.items` started on the k-th cell of a well-formed chain (the head for `k = 0`, rdf:nil for
+    `k = len`) yields the tail of the list from position `k` -/
+theorem Inv.items_view {s : St} {h : Term} {ps : List Cell} (inv : Inv s h ps) {k : Nat} {c : Term}
+    (hc : getContainer s.g (some h) k = some c) : items s.g c = ((ps.drop k).map Prod.snd, none) := by
+  rw [inv.chain.getContainer k] at hc
+  by_cases hps : ps = []
+  · subst hps
+    rw [if_pos rfl] at hc
+    by_cases hk : k = 0
+    · rw [if_pos hk] at hc
+      cases hc
+      simpa using inv.chain.items
+    · rw [if_neg hk] at hc; cases hc
+  · rw [if_neg hps] at hc
+    by_cases hk : k ≤ ps.length
+    · rw [if_pos hk] at hc
+      cases hc
+      have hcells := cells_drop inv.chain.cells k
+      have hnd : ((ps.drop k).map Prod.fst).Nodup := by
+        rw [List.map_drop]
+        exact inv.chain.nodup.sublist (List.drop_sublist k _)
+      have hlen : (ps.drop k).length ≤ s.g.length := by
+        have := inv.chain.length_le
+        simp only [List.length_drop]
+        omega
+      unfold items
+      apply itemsAux_cells (inv.chain.value_nil (Or.inl rfl)) (inv.chain.value_nil (Or.inr rfl)) _ _ _ hcells hnd
+        (by omega)
+      generalize ps.drop k = qs at hcells hnd
+      cases qs with
+      | nil => simp [after]
+      | cons q qs =>
+        obtain ⟨c0, x0⟩ := q
+        intro a ha hm
+        simp only [hdN, List.mem_singleton] at hm
+        subst hm
+        simp only [after, List.mem_append, List.mem_singleton] at ha
+        rcases ha with ha | ha
+        · simp only [List.map_cons, List.nodup_cons] at hnd
+          exact hnd.1 ha
+        · exact hcells.1 ha
+    · rw [if_neg hk] at hc; cases hc
+
 end RV.C19
